@@ -51,6 +51,10 @@ def _r(src, args, ret):
 
 
 REGRESSION = [
+    # local variables whose names start like the return symbol, reassigned parameters after them
+    _r("def f(a: bool, b: bool, c: bool) -> bool:\n    _retained = a and b\n    a = not a\n    return (_retained ^ a) or c\n", [["a", "bool"], ["b", "bool"], ["c", "bool"]], "bool"),
+    _r("def f(a: Qint[2], b: Qint[2]) -> Qint[2]:\n    _ret2 = a + b\n    a = a ^ 1\n    b = _ret2 + a\n    return _ret2 ^ b\n", [["a", "Qint2"], ["b", "Qint2"]], "Qint2"),
+    _r("def f(a: Qint[2], _retx: bool) -> Tuple[Qint[2], bool]:\n    _return = a + 1 if _retx else a\n    _retx = not _retx\n    a = _return + 1\n    return (_return, _retx)\n", [["a", "Qint2"], ["_retx", "bool"]], ["Qint2", "bool"]),
     _r("def f(a: Qint[2], done: bool) -> Qint[2]:\n    r = a\n    if done:\n        r = a + 1\n    else:\n        done = True\n        r = a + 2\n    return r\n", [["a", "Qint2"], ["done", "bool"]], "Qint2"),
     _r("def f(a: Qint[2], done: bool) -> Tuple[Qint[2], bool]:\n    r = a\n    if done:\n        done = False\n        r = a + 1\n    else:\n        r = a + 2\n        done = True\n    return (r, done)\n", [["a", "Qint2"], ["done", "bool"]], ["Qint2", "bool"]),
     _r("def f(a: Qlist[Qint[2], 3], seen: bool) -> Qint[2]:\n    n = 0\n    for x in a:\n        if seen:\n            n = n ^ x\n        else:\n            seen = True\n            n = n + x\n    return n\n", [["a", ["Qint2"] * 3], ["seen", "bool"]], "Qint2"),
